@@ -319,7 +319,7 @@ fn synthetic_minimizer_shapes(rng: &mut Rng) -> ScannerCfg {
 }
 
 fn gen_program(rng: &mut Rng, st: &mut Stats) -> Option<ScannerCfg> {
-    let p = GenParams::default();
+    let p = GenParams::varied(rng);
     let cfg = match rng.below(10) {
         0 | 1 => {
             st.count("synthetic_minimizer_shape");
